@@ -96,6 +96,94 @@ func constStringArgs(fn *ssa.Function, callee string, idx int) map[string]bool {
 }
 
 func runC02(c *Ctx) {
+	c.rule("C02-R11", "SIB: forms that the interpreter treats specially are treated specially by the compiler: (a) the interpreter evaluates the right operand of && / || only when the left one does not decide (a conditional return between the two EvaluateExpression calls) - the compiler emits a conditional jump between compiling the two operands; (b) the interpreter's assign / reassign arms dispatch on a '.' in the target (field store) - the compiler's arms test for it too and report the form as unsupported instead of storing into a variable of that name")
+	{
+		// (a) find the function(s) of the compiler that emit OpAnd / OpOr; between compileExpression(Left) and compileExpression(Right)
+		// on the path of these operators a jump opcode must be emitted
+		opAnd, okA := opcodeNames(c)["OpAnd"]
+		opJF, okJ := opcodeNames(c)["OpJumpIfFalse"]
+		opJT := opcodeNames(c)["OpJumpIfTrue"]
+		found := 0
+		for _, fn := range c.srcFuncs(compilerPkg) {
+			emitsAnd := false
+			eachCall(fn, func(call ssa.CallInstruction) {
+				n := callName(call)
+				if (n == compilerPath+".Compiler.emit" || n == compilerPath+".Compiler.emitWithOperand") && len(call.Common().Args) > 1 {
+					if k, ok := constInt(call.Common().Args[1]); ok && okA && k == opAnd {
+						emitsAnd = true
+					}
+					// the opcode may be chosen by a phi (And vs Or)
+					if derivesFrom(call.Common().Args[1], func(v ssa.Value) bool { k, ok := constInt(v); return ok && okA && k == opAnd }) {
+						emitsAnd = true
+					}
+				}
+			})
+			if !emitsAnd {
+				continue
+			}
+			found++
+			// operand compilations in this function
+			var comps []ssa.Instruction
+			eachInstr(fn, func(_ *ssa.BasicBlock, _ int, ins ssa.Instruction) {
+				if isCallTo(ins, compilerPath+".Compiler.compileExpression") {
+					comps = append(comps, ins)
+				}
+			})
+			jumpBetween := false
+			if len(comps) >= 2 {
+				q := &pathQuery{fn: fn, target: func(x ssa.Instruction) bool { return x == comps[len(comps)-1] }, stop: func(x ssa.Instruction) bool {
+					call, ok := x.(*ssa.Call)
+					if !ok || callName(call) != compilerPath+".Compiler.emitWithOperand" {
+						return false
+					}
+					return derivesFrom(call.Call.Args[1], func(v ssa.Value) bool {
+						k, ok := constInt(v)
+						return ok && okJ && (k == opJF || k == opJT)
+					})
+				}}
+				if hit, _ := q.after(comps[0]); hit == nil {
+					jumpBetween = true
+				}
+			}
+			c.ob("C02-R11", fnKey(fn)+"#logical-operators-short-circuit", fn.Pos(), jumpBetween, "the function that emits OpAnd/OpOr compiles the right operand unconditionally after the left one (no conditional jump in between): compiled && / || evaluate both operands, so `x != null && x.n > 0` fails on null and effects of the right operand happen although the left one decided - the interpreter short-circuits")
+		}
+		if found == 0 {
+			c.undecided("C02-R11: no compiler function emits OpAnd")
+		}
+		// (b)
+		interpDispatches := 0
+		for _, name := range []string{"Interpreter.executeAssign", "Interpreter.executeReassign"} {
+			if f := c.fn(interpPkg, name); f != nil {
+				eachCall(f, func(call ssa.CallInstruction) {
+					if n := callName(call); (n == "strings.SplitN" || n == "strings.Contains" || n == "strings.Index" || n == "strings.Split") && len(call.Common().Args) > 1 {
+						if s, ok := constString(call.Common().Args[1]); ok && s == "." {
+							interpDispatches++
+						}
+					}
+				})
+			}
+		}
+		if interpDispatches > 0 {
+			for _, name := range []string{"Compiler.compileAssignStatement", "Compiler.compileReassignStatement"} {
+				f := c.mustFn("C02-R11", compilerPkg, name)
+				if f == nil {
+					continue
+				}
+				tests := false
+				eachCall(f, func(call ssa.CallInstruction) {
+					if n := callName(call); (n == "strings.SplitN" || n == "strings.Contains" || n == "strings.Index" || n == "strings.Split" || n == "strings.ContainsRune" || n == "strings.IndexByte") && len(call.Common().Args) > 1 {
+						if s, ok := constString(call.Common().Args[1]); ok && s == "." {
+							tests = true
+						}
+						if k, ok := constInt(call.Common().Args[1]); ok && k == '.' {
+							tests = true
+						}
+					}
+				})
+				c.ob("C02-R11", fnKey(f)+"#dotted-target-handled", f.Pos(), tests, "the interpreter stores `obj.field = v` into the field, this compiler arm never looks for a '.' in the target: it stores into (or looks for) a variable literally named \"obj.field\", so the compiled engine leaves the object unchanged or rejects the program")
+			}
+		}
+	}
 	c02ConstPool(c)
 	c.rule("C02-R9", "ID: a table from which entries are deleted never takes the key of a new entry from its own size: every update m[k] of a struct-field map in pkg/vm / pkg/interpreter whose key derives from len(m), while the package also deletes from m, is a collision (a live entry - an enclosing loop's iterator - is overwritten once a lower key was deleted). Fresh keys come from a counter that only grows")
 	{
